@@ -1,11 +1,8 @@
 (* C05 - proofs about a LAZILY read image (frames fetched from the file on demand, the whole
-   array cached by highdicom itself in self._pixel_array):
-   - as long as the cached array, if any, was decoded from the current description, every read
-     answers exactly as the cache-free reference does (so: reads in ANY order, and header edits made
-     before pixel_array was first called, are history-independent; and a lazily read image answers
-     exactly as the in-memory image does);
-   - a header edit made AFTER pixel_array was called is ignored by every later read: refuted with a
-     concrete witness (the code never validates or drops self._pixel_array of a lazily read image). *)
+   array cached by highdicom itself in self._pixel_array and, since the D105 fix, validated against
+   the current pixel description): every read answers exactly as the cache-free reference does, for
+   EVERY history of reads and header edits; so a lazily read image answers exactly as the in-memory
+   image does. *)
 From Coq Require Import String ZArith List Bool Lia ZifyBool Arith.
 From HD Require Import Base.Val Base.ListZ C05_Model C05_Proofs C05_Proofs_State.
 Import ListNotations.
@@ -14,11 +11,11 @@ Ltac Zify.zify_post_hook ::= Z.to_euclidean_division_equations.
 
 Definition lcontent (st : limg) : cfmt * list Z := (l_c st, l_pd st).
 
-(* the cached array, if any, is the decode of the current content *)
+(* the cached array, if any, is the decode of the file under the description it was cached with *)
 Definition lcoherent (st : limg) : Prop :=
   match l_cache st with
   | None => True
-  | Some (c0, fs) => c0 = l_c st /\ fs = map (spec_frame_c (l_c st) (l_pd st)) (zrange (f_frames (c_fmt (l_c st))))
+  | Some (c0, fs) => fs = map (spec_frame_c c0 (l_pd st)) (zrange (f_frames (c_fmt c0)))
   end.
 
 Definition op_of_lop (o : lop) : op :=
@@ -27,39 +24,12 @@ Definition op_of_lop (o : lop) : op :=
   | LRaw f ai => ORaw f ai | LDecodeRaw f ai => ODecodeRaw f ai | LHeader c => OHeader c
   end.
 
-Lemma lz_one_spec : forall st f ai, valid_c (l_c st) -> enough (c_fmt (l_c st)) (l_pd st) -> lcoherent st ->
-  lz_one st f ai = rmap (pair (l_c st)) (ref_one (l_c st) (l_pd st) f ai).
+Lemma lz_fresh_one_spec : forall c pd f ai, valid_c c -> enough (c_fmt c) pd ->
+  lz_fresh_one c pd f ai = ref_one c pd f ai.
 Proof.
-  intros [c pd cache] f ai Hv He Hc. unfold lz_one, ref_one, lcoherent in *. cbn [l_c l_pd l_cache] in *.
-  set (n := f_frames (c_fmt c)) in *.
-  destruct (index_total n f ai) as [(i & E & Hi) | E]; rewrite E; cbn [bind rmap]; [|reflexivity].
-  destruct cache as [[c0 fs]|].
-  - destruct Hc as [-> ->].
-    destruct (n =? 1) eqn:N.
-    + assert (i = 0) by lia. subst i. rewrite nth_map_zrange by lia. reflexivity.
-    + rewrite nth_error_map, nth_error_zrange by lia. cbn [option_map]. now rewrite Z2Nat.id by lia.
-  - rewrite frame_lazy_c_eager, (frame_eager_c_ok c pd i Hv He Hi). reflexivity.
-Qed.
-
-Lemma lz_batch_loop_spec : forall fs st ai, valid_c (l_c st) -> enough (c_fmt (l_c st)) (l_pd st) -> lcoherent st ->
-  lz_batch_loop st fs ai = rmap (map (pair (l_c st))) (sequence (map (fun f => ref_one (l_c st) (l_pd st) f ai) fs)).
-Proof.
-  induction fs as [|f r IH]; intros st ai Hv He Hc; cbn [lz_batch_loop map sequence]; [reflexivity|].
-  rewrite lz_one_spec, IH by assumption.
-  destruct (ref_one (l_c st) (l_pd st) f ai); cbn [rmap bind]; [|reflexivity].
-  destruct (sequence _); reflexivity.
-Qed.
-
-Lemma lz_batch_spec : forall fs st ai, valid_c (l_c st) -> enough (c_fmt (l_c st)) (l_pd st) -> lcoherent st ->
-  lz_batch st fs ai = rmap (pair (l_c st)) (ref_batch (l_c st) (l_pd st) fs ai).
-Proof.
-  intros fs st ai Hv He Hc. unfold lz_batch, ref_batch. rewrite lz_batch_loop_spec by assumption.
-  destruct fs as [|f r]; [reflexivity|].
-  destruct (sequence (map (fun f0 => ref_one (l_c st) (l_pd st) f0 ai) (f :: r))) as [l|k] eqn:S; cbn [rmap bind]; [|reflexivity].
-  destruct l as [|a l].
-  - exfalso. cbn [map sequence] in S. destruct (ref_one _ _ f ai); cbn [bind] in S; [|discriminate].
-    destruct (sequence _); discriminate.
-  - cbn [map]. f_equal. f_equal. cbn [snd]. f_equal. rewrite map_map. cbn [snd]. now rewrite map_id.
+  intros c pd f ai Hv He. unfold lz_fresh_one, ref_one.
+  destruct (index_total (f_frames (c_fmt c)) f ai) as [(i & E & Hi) | E]; rewrite E; cbn [bind]; [|reflexivity].
+  rewrite frame_lazy_c_eager. apply (frame_eager_c_ok c pd i Hv He Hi).
 Qed.
 
 Lemma In_zrange : forall n k, In k (zrange n) -> 0 <= k < n.
@@ -75,38 +45,97 @@ Proof.
   rewrite (H x (or_introl eq_refl)), IH by (intros y Hy; apply H; now right). reflexivity.
 Qed.
 
-(* all frames, by number: the decode of the whole content *)
-Lemma all_frames_ref : forall c pd, 0 <= f_frames (c_fmt c) ->
-  sequence (map (fun f => ref_one c pd f false) (map (fun k => k + 1) (zrange (f_frames (c_fmt c)))))
-  = Ok (map (spec_frame_c c pd) (zrange (f_frames (c_fmt c)))).
+(* what pixel_array decodes from the file, frame by frame: the decode of the whole content *)
+Lemma lz_fresh_all_spec : forall c pd, valid_c c -> enough (c_fmt c) pd ->
+  lz_fresh_all c pd = Ok (map (spec_frame_c c pd) (zrange (f_frames (c_fmt c)))).
 Proof.
-  intros c pd Hn. rewrite map_map. apply sequence_all_ok. intros k Hk. apply In_zrange in Hk.
-  unfold ref_one.
-  assert (E : std_index (f_frames (c_fmt c)) (k + 1) false = Ok k) by (apply index_rule; right; repeat split; lia).
-  rewrite E. reflexivity.
+  intros c pd Hv He. unfold lz_fresh_all. cbv zeta. set (n := f_frames (c_fmt c)).
+  assert (Hn : 1 <= n) by (destruct Hv as ((_ & _ & H) & _); exact H).
+  destruct (n =? 1) eqn:N.
+  - rewrite lz_fresh_one_spec by assumption. unfold ref_one. fold n.
+    assert (E : std_index n 1 false = Ok 0) by (apply index_rule; right; repeat split; lia).
+    rewrite E. cbn [bind rmap]. assert (H1 : n = 1) by lia. rewrite H1. reflexivity.
+  - destruct (map (fun k => k + 1) (zrange n)) as [|x r] eqn:M.
+    { exfalso. assert (L : length (map (fun k => k + 1) (zrange n)) = Z.to_nat n) by now rewrite map_length, zrange_length.
+      rewrite M in L. cbn [length] in L. lia. }
+    rewrite <- M. rewrite map_map. apply sequence_all_ok. intros k Hk. apply In_zrange in Hk.
+    rewrite lz_fresh_one_spec by assumption. unfold ref_one. fold n.
+    assert (E : std_index n (k + 1) false = Ok k) by (apply index_rule; right; repeat split; lia).
+    rewrite E. reflexivity.
 Qed.
 
+(* Image.pixel_array of a lazily read image in ANY coherent cache state *)
 Lemma lz_whole_spec : forall st, valid_c (l_c st) -> enough (c_fmt (l_c st)) (l_pd st) -> lcoherent st ->
-  let all := map (spec_frame_c (l_c st) (l_pd st)) (zrange (f_frames (c_fmt (l_c st)))) in
-  snd (lz_whole st) = Ok (l_c st, all) /\
-  fst (lz_whole st) = LImg (l_c st) (l_pd st) (Some (l_c st, all)).
+  snd (lz_whole st) = Ok (map (spec_frame_c (l_c st) (l_pd st)) (zrange (f_frames (c_fmt (l_c st))))) /\
+  lcontent (fst (lz_whole st)) = lcontent st /\ lcoherent (fst (lz_whole st)) /\
+  l_cache (fst (lz_whole st)) <> None.
 Proof.
-  intros [c pd cache] Hv He Hc. cbn [l_c l_pd] in *. cbv zeta. unfold lz_whole. cbn [l_c l_pd l_cache].
-  set (n := f_frames (c_fmt c)) in *.
-  assert (Hn : 1 <= n) by (destruct Hv as ((_ & _ & H) & _); exact H).
+  intros [c pd cache] Hv He Hc. unfold lz_whole, lcontent, lcoherent in *. cbn [l_c l_pd l_cache] in *.
+  assert (F : forall p : limg * res (list (list Z)),
+            p = match lz_fresh_all c pd with
+                | Ok fs => (LImg c pd (Some (c, fs)), Ok fs)
+                | Err k => (LImg c pd None, Err k)
+                end ->
+            snd p = Ok (map (spec_frame_c c pd) (zrange (f_frames (c_fmt c)))) /\
+            (l_c (fst p), l_pd (fst p)) = (c, pd) /\
+            match l_cache (fst p) with
+            | Some (c0, fs) => fs = map (spec_frame_c c0 (l_pd (fst p))) (zrange (f_frames (c_fmt c0)))
+            | None => True
+            end /\ l_cache (fst p) <> None).
+  { intros p ->. rewrite lz_fresh_all_spec by assumption. cbn [fst snd l_c l_pd l_cache].
+    split; [reflexivity|]. split; [reflexivity|]. split; [reflexivity|discriminate]. }
   destruct cache as [[c0 fs]|].
-  - unfold lcoherent in Hc. cbn [l_c l_pd l_cache] in Hc. destruct Hc as [-> ->]. split; reflexivity.
-  - destruct (n =? 1) eqn:N.
-    + rewrite lz_one_spec by assumption. cbn [l_c l_pd]. unfold ref_one. fold n.
-      assert (E : std_index n 1 false = Ok 0) by (apply index_rule; right; repeat split; lia).
-      rewrite E. cbn [bind rmap fst snd].
-      assert (n = 1) by lia. replace (zrange n) with [0] by (rewrite H; reflexivity).
-      split; reflexivity.
-    + rewrite lz_batch_spec by assumption. cbn [l_c l_pd]. unfold ref_batch. fold n.
-      destruct (map (fun k => k + 1) (zrange n)) as [|x r] eqn:M.
-      { exfalso. assert (L : length (map (fun k => k + 1) (zrange n)) = Z.to_nat n) by now rewrite map_length, zrange_length.
-        rewrite M in L. cbn [length] in L. lia. }
-      rewrite <- M. unfold n. rewrite all_frames_ref by (fold n; lia). cbn [rmap bind fst snd]. split; reflexivity.
+  - destruct (cfmt_eqb c0 c) eqn:E.
+    + apply cfmt_eqb_eq in E. subst c0. cbn [fst snd l_c l_pd l_cache].
+      split; [now rewrite Hc|]. split; [reflexivity|]. split; [exact Hc|discriminate].
+    + exact (F _ eq_refl).
+  - exact (F _ eq_refl).
+Qed.
+
+(* get_stored_frame *)
+Lemma lz_one_spec : forall st f ai, valid_c (l_c st) -> enough (c_fmt (l_c st)) (l_pd st) -> lcoherent st ->
+  snd (lz_one st f ai) = ref_one (l_c st) (l_pd st) f ai /\
+  lcontent (fst (lz_one st f ai)) = lcontent st /\ lcoherent (fst (lz_one st f ai)).
+Proof.
+  intros st f ai Hv He Hc. unfold lz_one, ref_one. cbv zeta.
+  set (n := f_frames (c_fmt (l_c st))).
+  destruct (index_total n f ai) as [(i & E & Hi) | E]; rewrite E; cbn [bind fst snd];
+    [|split; [reflexivity|split; [reflexivity|exact Hc]]].
+  destruct (l_cache st) as [k|] eqn:C; cbn [fst snd].
+  - destruct (lz_whole_spec st Hv He Hc) as (W1 & W2 & W3 & _). rewrite W1. cbn [bind]. fold n.
+    split; [|split; [exact W2|exact W3]].
+    destruct (n =? 1) eqn:N.
+    + assert (i = 0) by lia. subst i. rewrite nth_map_zrange by lia. reflexivity.
+    + rewrite nth_error_map, nth_error_zrange by lia. cbn [option_map]. now rewrite Z2Nat.id by lia.
+  - split; [|split; [reflexivity|exact Hc]].
+    rewrite frame_lazy_c_eager. apply (frame_eager_c_ok (l_c st) (l_pd st) i Hv He Hi).
+Qed.
+
+Lemma lz_batch_loop_spec : forall fs st ai, valid_c (l_c st) -> enough (c_fmt (l_c st)) (l_pd st) -> lcoherent st ->
+  snd (lz_batch_loop st fs ai) = sequence (map (fun f => ref_one (l_c st) (l_pd st) f ai) fs) /\
+  lcontent (fst (lz_batch_loop st fs ai)) = lcontent st /\ lcoherent (fst (lz_batch_loop st fs ai)).
+Proof.
+  induction fs as [|f r IH]; intros st ai Hv He Hc; cbn [lz_batch_loop map sequence];
+    [split; [reflexivity|split; [reflexivity|exact Hc]]|].
+  destruct (lz_one_spec st f ai Hv He Hc) as (S1 & S2 & S3).
+  destruct (lz_one st f ai) as [st' [a|k]]; cbn [fst snd] in *; rewrite <- S1; cbn [bind fst snd];
+    [|split; [reflexivity|split; [exact S2|exact S3]]].
+  unfold lcontent in S2. inversion S2 as [[Sc Sp]].
+  assert (Hv' : valid_c (l_c st')) by now rewrite Sc.
+  assert (He' : enough (c_fmt (l_c st')) (l_pd st')) by now rewrite Sc, Sp.
+  destruct (IH st' ai Hv' He' S3) as (B1 & B2 & B3). rewrite B1, Sc, Sp. split; [reflexivity|].
+  split; [|exact B3]. rewrite B2. unfold lcontent. now rewrite Sc, Sp.
+Qed.
+
+Lemma lz_batch_spec : forall fs st ai, valid_c (l_c st) -> enough (c_fmt (l_c st)) (l_pd st) -> lcoherent st ->
+  snd (lz_batch st fs ai) = ref_batch (l_c st) (l_pd st) fs ai /\
+  lcontent (fst (lz_batch st fs ai)) = lcontent st /\ lcoherent (fst (lz_batch st fs ai)).
+Proof.
+  intros fs st ai Hv He Hc. unfold lz_batch, ref_batch.
+  destruct (lz_batch_loop_spec fs st ai Hv He Hc) as (B1 & B2 & B3).
+  destruct fs as [|f r].
+  - cbn [lz_batch_loop fst snd]. split; [reflexivity|split; [reflexivity|exact Hc]].
+  - destruct (snd (lz_batch_loop st (f :: r) ai)) eqn:S; rewrite <- B1; (split; [exact S|split; [exact B2|exact B3]]).
 Qed.
 
 Lemma lz_decode_raw_spec : forall st f ai, valid_c (l_c st) -> enough (c_fmt (l_c st)) (l_pd st) ->
@@ -117,136 +146,56 @@ Proof.
   apply (frame_eager_c_ok (l_c st) (l_pd st) i Hv He Hi).
 Qed.
 
-Lemma vans2_pair : forall {A} c (g : A -> val) r, vans2 g (rmap (pair c) r) = vans c g r.
-Proof. intros A c g [a|k]; reflexivity. Qed.
-
-(* a header edit is harmless when nothing is cached yet, or when it changes nothing *)
-Definition edit_ok (st : limg) (o : lop) : Prop :=
-  match o with LHeader c' => l_cache st = None \/ c' = l_c st | _ => True end.
-
-Lemma lstep_spec : forall st o, valid_c (l_c st) -> enough (c_fmt (l_c st)) (l_pd st) -> lcoherent st -> edit_ok st o ->
+Lemma lstep_spec : forall st o, valid_c (l_c st) -> enough (c_fmt (l_c st)) (l_pd st) -> lcoherent st ->
   snd (lstep st o) = snd (ref_step (lcontent st) (op_of_lop o)) /\
   lcontent (fst (lstep st o)) = fst (ref_step (lcontent st) (op_of_lop o)) /\
   lcoherent (fst (lstep st o)).
 Proof.
-  intros st o Hv He Hc Hed.
-  destruct o as [|f ai|fs ai|f ai|f ai|c']; unfold lstep, ref_step, lcontent, op_of_lop; cbn [fst snd].
-  - destruct (lz_whole_spec st Hv He Hc) as [W1 W2]. rewrite W1, W2. cbn [l_c l_pd]. repeat split.
-  - rewrite lz_one_spec by assumption. rewrite vans2_pair. split; [reflexivity|split; [reflexivity|exact Hc]].
-  - rewrite lz_batch_spec by assumption. rewrite vans2_pair. split; [reflexivity|split; [reflexivity|exact Hc]].
+  intros st o Hv He Hc.
+  destruct o as [|f ai|fs ai|f ai|f ai|c']; unfold lstep, ref_step, op_of_lop; cbv zeta; cbn [fst snd].
+  - destruct (lz_whole_spec st Hv He Hc) as (W1 & W2 & W3 & _). rewrite W1.
+    split; [reflexivity|split; [exact W2|exact W3]].
+  - destruct (lz_one_spec st f ai Hv He Hc) as (S1 & S2 & S3). rewrite S1.
+    split; [reflexivity|split; [exact S2|exact S3]].
+  - destruct (lz_batch_spec fs st ai Hv He Hc) as (S1 & S2 & S3). rewrite S1.
+    split; [reflexivity|split; [exact S2|exact S3]].
   - rewrite raw_frame_lazy_eager. split; [reflexivity|split; [reflexivity|exact Hc]].
   - rewrite lz_decode_raw_spec by assumption. split; [reflexivity|split; [reflexivity|exact Hc]].
-  - cbn [l_c l_pd]. split; [reflexivity|]. split; [reflexivity|].
-    unfold lcoherent in *. cbn [l_c l_pd l_cache]. cbn [edit_ok] in Hed.
-    destruct Hed as [-> | ->]; [exact I|exact Hc].
+  - unfold lcontent, lcoherent in *. cbn [l_c l_pd l_cache fst snd]. split; [reflexivity|split; [reflexivity|exact Hc]].
 Qed.
 
-(* the history is acceptable: the image is valid initially and after every edit, and header edits
-   that change something happen only while nothing is cached (cached over-approximates "pixel_array
-   has been called") *)
-Fixpoint lops_valid (x : cfmt * list Z) (cached : bool) (ops : list lop) : Prop :=
-  valid_c (fst x) /\ enough (c_fmt (fst x)) (snd x) /\
-  match ops with
-  | [] => True
-  | LHeader c' :: r => (cached = false \/ c' = fst x) /\ lops_valid (c', snd x) cached r
-  | LWhole :: r => lops_valid x true r
-  | _ :: r => lops_valid x cached r
-  end.
-
-Lemma lazy_history : forall ops st cached, lcoherent st -> (l_cache st <> None -> cached = true) ->
-  lops_valid (lcontent st) cached ops ->
+(* ANY history of reads and header edits, from any coherent state: every answer is the one a
+   cache-free reading of the current description and the file gives *)
+Lemma lazy_history : forall ops st, lcoherent st -> ops_valid (lcontent st) (map op_of_lop ops) ->
   lrun_ops st ops = ref_ops (lcontent st) (map op_of_lop ops).
 Proof.
-  induction ops as [|o r IH]; intros st cached Hc Hf Hval; [reflexivity|].
-  assert (Hv : valid_c (l_c st)) by (destruct o; exact (proj1 Hval)).
-  assert (He : enough (c_fmt (l_c st)) (l_pd st)) by (destruct o; exact (proj1 (proj2 Hval))).
-  assert (Hed : edit_ok st o).
-  { destruct o as [| | | | |c']; try exact I. cbn [lops_valid] in Hval. destruct Hval as (_ & _ & [H | H] & _).
-    - left. destruct (l_cache st) eqn:C; [|reflexivity]. rewrite Hf in H by discriminate. discriminate.
-    - right. exact H. }
-  destruct (lstep_spec st o Hv He Hc Hed) as (S1 & S2 & S3).
-  cbn [lrun_ops map ref_ops]. rewrite S1. f_equal. rewrite <- S2.
-  destruct o as [|f ai|fs ai|f ai|f ai|c'].
-  - apply (IH _ true S3 (fun _ => eq_refl)). rewrite S2. exact (proj2 (proj2 Hval)).
-  - apply (IH _ cached S3); [exact Hf|]. rewrite S2. exact (proj2 (proj2 Hval)).
-  - apply (IH _ cached S3); [exact Hf|]. rewrite S2. exact (proj2 (proj2 Hval)).
-  - apply (IH _ cached S3); [exact Hf|]. rewrite S2. exact (proj2 (proj2 Hval)).
-  - apply (IH _ cached S3); [exact Hf|]. rewrite S2. exact (proj2 (proj2 Hval)).
-  - apply (IH _ cached S3); [exact Hf|]. rewrite S2. exact (proj2 (proj2 (proj2 Hval))).
+  induction ops as [|o r IH]; intros st Hc Hval; [reflexivity|].
+  cbn [map ops_valid] in Hval. destruct Hval as (Hv & He & Hr). cbn [lcontent fst snd] in Hv, He.
+  destruct (lstep_spec st o Hv He Hc) as (S1 & S2 & S3).
+  cbn [lrun_ops map ref_ops]. rewrite S1. f_equal.
+  rewrite <- S2 in Hr. rewrite (IH _ S3 Hr). now rewrite S2.
 Qed.
 
-Lemma lops_valid_ops_valid : forall ops x cached, lops_valid x cached ops -> ops_valid x (map op_of_lop ops).
-Proof.
-  induction ops as [|o r IH]; intros x cached H.
-  - cbn [map ops_valid]. destruct H as (Hv & He & _). split; [exact Hv|split; [exact He|exact I]].
-  - assert (Hv : valid_c (fst x)) by (destruct o; exact (proj1 H)).
-    assert (He : enough (c_fmt (fst x)) (snd x)) by (destruct o; exact (proj1 (proj2 H))).
-    cbn [map ops_valid]. split; [exact Hv|]. split; [exact He|].
-    destruct o as [|f ai|fs ai|f ai|f ai|c']; cbn [op_of_lop ref_step fst snd];
-      try (replace x with (fst x, snd x) in H by (destruct x; reflexivity)).
-    + destruct x. exact (IH _ true (proj2 (proj2 H))).
-    + destruct x. exact (IH _ cached (proj2 (proj2 H))).
-    + destruct x. exact (IH _ cached (proj2 (proj2 H))).
-    + destruct x. exact (IH _ cached (proj2 (proj2 H))).
-    + destruct x. exact (IH _ cached (proj2 (proj2 H))).
-    + exact (IH _ cached (proj2 (proj2 (proj2 H)))).
-Qed.
-
-(* a freshly opened lazily read image answers every acceptable history exactly as the in-memory
-   image does (both equal the cache-free reference) *)
-Lemma lazy_equals_in_memory : forall ops c pd, lops_valid (c, pd) false ops ->
+(* a lazily read image answers every history exactly as the in-memory image does *)
+Lemma lazy_equals_in_memory : forall ops c pd, ops_valid (c, pd) (map op_of_lop ops) ->
   lrun_ops (LImg c pd None) ops = run_ops (Img c pd None) (map op_of_lop ops) /\
   lrun_ops (LImg c pd None) ops = ref_ops (c, pd) (map op_of_lop ops).
 Proof.
   intros ops c pd H.
-  assert (L : lrun_ops (LImg c pd None) ops = ref_ops (c, pd) (map op_of_lop ops)).
-  { apply (lazy_history ops (LImg c pd None) false); [exact I|intros X; now contradiction X|exact H]. }
+  assert (L : lrun_ops (LImg c pd None) ops = ref_ops (c, pd) (map op_of_lop ops))
+    by (apply (lazy_history ops (LImg c pd None)); [exact I|exact H]).
   split; [|exact L]. rewrite L. symmetry.
-  apply (history_irrelevant (map op_of_lop ops) (Img c pd None)).
-  exact (lops_valid_ops_valid ops (c, pd) false H).
+  apply (history_irrelevant (map op_of_lop ops) (Img c pd None)). exact H.
 Qed.
 
-(* reads only: any order, any number, any mix - no hypothesis about the cache flag is needed *)
-Definition is_read (o : lop) : bool := match o with LHeader _ => false | _ => true end.
+(* the theorem is not vacuous about the cache: pixel_array always leaves an array cached, so later
+   reads do go through the validation branch *)
+Lemma lazy_cache_filled : forall st, valid_c (l_c st) -> enough (c_fmt (l_c st)) (l_pd st) -> lcoherent st ->
+  l_cache (fst (lz_whole st)) <> None.
+Proof. intros st Hv He Hc. exact (proj2 (proj2 (proj2 (lz_whole_spec st Hv He Hc)))). Qed.
 
-Lemma reads_lops_valid : forall ops x cached, valid_c (fst x) -> enough (c_fmt (fst x)) (snd x) ->
-  forallb is_read ops = true -> lops_valid x cached ops.
-Proof.
-  induction ops as [|o r IH]; intros x cached Hv He H; cbn [lops_valid]; [split; [exact Hv|split; [exact He|exact I]]|].
-  cbn [forallb] in H. apply andb_true_iff in H. destruct H as [Ho Hr].
-  destruct o; try discriminate; (split; [exact Hv|]); (split; [exact He|]); now apply IH.
-Qed.
-
-Lemma lazy_reads_any_order : forall ops c pd, valid_c c -> enough (c_fmt c) pd -> forallb is_read ops = true ->
-  lrun_ops (LImg c pd None) ops = ref_ops (c, pd) (map op_of_lop ops).
-Proof.
-  intros ops c pd Hv He H. apply (lazy_equals_in_memory ops c pd). now apply reads_lops_valid.
-Qed.
-
-(* ------------------------------------------------------------------ *)
-(* refutation: an edit AFTER pixel_array is ignored                    *)
-(* ------------------------------------------------------------------ *)
-(* two 16-bit frames of two pixels; whole array read, PixelRepresentation set to signed, frame 1
-   read: the lazily read image still answers 65535 as uint16, the reference (and the in-memory
-   image, and a lazily read image on which pixel_array was not called) answers -1 as int16 *)
+(* the D105 witness: two 16-bit frames of two pixels; whole array read, PixelRepresentation set to
+   signed, frame 1 read *)
 Definition wit_c : cfmt := CFmt (Fmt 16 16 false 2 2) 1 false 1.
 Definition wit_c' : cfmt := CFmt (Fmt 16 16 true 2 2) 1 false 1.
 Definition wit_pd : list Z := [255; 255; 1; 0; 2; 0; 3; 0].
-Definition wit_ops : list lop := [LWhole; LHeader wit_c'; LOne 1 false].
-
-Lemma lazy_history_refuted :
-  exists c pd ops, ops_valid (c, pd) (map op_of_lop ops) /\
-    lrun_ops (LImg c pd None) ops <> ref_ops (c, pd) (map op_of_lop ops) /\
-    lrun_ops (LImg c pd None) ops <> run_ops (Img c pd None) (map op_of_lop ops) /\
-    nth 2 (lrun_ops (LImg c pd None) ops) VNone = VL [meta c; vz_list [65535; 1]] /\
-    nth 2 (ref_ops (c, pd) (map op_of_lop ops)) VNone = VL [meta wit_c'; vz_list [-1; 1]].
-Proof.
-  exists wit_c, wit_pd, wit_ops. split; [|split; [|split; [|split]]].
-  - cbn [wit_ops map op_of_lop ops_valid ref_step fst snd]. unfold valid_c, valid_fmt, enough.
-    cbn [wit_c wit_c' c_fmt c_planar f_bits f_npx f_frames].
-    repeat split; try (vm_compute; congruence); auto; try discriminate.
-  - intro H. vm_compute in H. discriminate.
-  - intro H. vm_compute in H. discriminate.
-  - vm_compute. reflexivity.
-  - vm_compute. reflexivity.
-Qed.
